@@ -155,7 +155,16 @@ def lex_comment(
     then returns what they return.
     """
 
-    if char in c_info["multi_chars"]:
+    if (
+        preserve["state"] == Preserve.COMMENT
+        and preserve["end"] in c_info["single_comments"].values()
+    ):
+        # Inside a single-character comment, only its own end matters,
+        # the characters of multi-character comment delimiters are just text.
+        return lex_singlechar_comments(
+            char, lexeme, preserve, c_info["single_comments"]
+        )
+    elif char in c_info["multi_chars"]:
         return lex_multichar_comments(
             char,
             prev_char,
